@@ -76,7 +76,6 @@ class PolyRef:
         # three-term recurrence coefficients of the monic polynomials: p_{k+1} = (t - alpha_k) p_k - beta_k p_{k-1}
         self.alpha = [sum(xi * v * v for xi, v in zip(self.x, self.V[k])) / self.n2[k] for k in range(degree)]
         self.beta = [None] + [self.n2[k] / self.n2[k - 1] for k in range(1, degree)]
-        self.norm = [math.sqrt(float(q)) if q < 10 ** 300 else sqrt_fraction(q) for q in self.n2]
         # growth of the recurrence: how much larger the terms that are subtracted are than the result.  A float64
         # evaluation of the recurrence loses log2(K) bits in column k (running error analysis; measured err/(u*K) <= 5)
         self.K = []
